@@ -18,6 +18,7 @@ import (
 	"fmt"
 	"os"
 	"strconv"
+	"sync/atomic"
 	"time"
 
 	"gcverif/internal/hx"
@@ -37,6 +38,26 @@ var ErrBadOp = fmt.Errorf("bad-op")
 // Watchdog: an interface call that does not return within this time is reported as `hang`
 // (generous: "wait for what must happen", never used to assert that something did not happen).
 var Watchdog = 20 * time.Second
+
+// After the first hang of a process the watchdog is short: the first one is waited for generously, an
+// implementation that hangs once usually hangs in many histories and must not stall the driver.
+var WatchdogAfterHang = 1500 * time.Millisecond
+
+var hangsSeen int32
+
+// probes of a minimisation (the check sets VERIF_MINIMISING) use the short watchdog from the start: the hang
+// was waited for generously before, and the minimised history is confirmed without the flag
+var minimising = os.Getenv("VERIF_MINIMISING") != ""
+
+// GiveUpAfterHangs: after that many hung histories a driver process stops calling into the code under test.
+var GiveUpAfterHangs int32 = 8
+
+func watchdog() time.Duration {
+	if (atomic.LoadInt32(&hangsSeen) > 0 || minimising) && WatchdogAfterHang < Watchdog {
+		return WatchdogAfterHang
+	}
+	return Watchdog
+}
 
 // Kept is a buffer remembered by the alias probes: the very slice / listing object the filespace
 // was given or returned.
@@ -98,6 +119,11 @@ func (s *Session) Exec(f func() string) string {
 	if s.hung {
 		return "hang"
 	}
+	if atomic.LoadInt32(&hangsSeen) >= GiveUpAfterHangs {
+		// the process has seen enough hanging histories: the rest of the stream is not attempted (every
+		// difference the check reports is re-run alone, in a process of its own, before it is believed)
+		return "hang"
+	}
 	ch := make(chan string, 1)
 	go func() {
 		var res string
@@ -107,7 +133,7 @@ func (s *Session) Exec(f func() string) string {
 		ch <- res
 	}()
 	if s.timer == nil {
-		s.timer = time.NewTimer(Watchdog)
+		s.timer = time.NewTimer(watchdog())
 	} else {
 		if !s.timer.Stop() {
 			select {
@@ -115,12 +141,13 @@ func (s *Session) Exec(f func() string) string {
 			default:
 			}
 		}
-		s.timer.Reset(Watchdog)
+		s.timer.Reset(watchdog())
 	}
 	select {
 	case r := <-ch:
 		return r
 	case <-s.timer.C:
+		atomic.AddInt32(&hangsSeen, 1)
 		s.hung = true // locks may be held for ever: the rest of the history answers `hang`
 		return "hang"
 	}
